@@ -4,11 +4,11 @@ Part A (this file's streams): the integer list, dictionary, adjacency and sort/s
 (ref_list.c, ref_dict.c, ref_adj.c, ref_sort.c).  Part B (node / cell stores) appends its own
 property module and streams.
 """
-from . import streams_containers
+from . import streams_containers, streams_nodecell
 
 ID = 'C14'
-PROPS_MODULE = ['Refine.Props.C14']
-STREAMS = list(streams_containers.STREAMS)
+PROPS_MODULE = ['Refine.Props.C14', 'Refine.Props.C14NodeCell']
+STREAMS = list(streams_containers.STREAMS) + list(streams_nodecell.STREAMS)
 EXPLANATION = (
     'Proved in Lean 4 for all inputs (no size bound), about executable models that mirror ref_sort.c, ref_list.c, '
     'ref_dict.c and ref_adj.c loop by loop.  SORT/SEARCH: the heap sort (the literal single for(;;) loop with its sift-down loop and n<2 early return, proved equal to its two phases) '
@@ -50,3 +50,8 @@ ASSUMPTIONS = [
     '(out-of-bounds read of a zero-length allocation resp. non-termination of the C loop); rand() is interposed by '
     'the harness so that ref_sort_shuffle / ref_sort_rand_in_range consume a stream given on the op line',
 ]
+
+# ---- part B (node ids / cell store), merged from the nodecell package
+from . import c14nc as _nc  # noqa: E402
+EXPLANATION = EXPLANATION + ' PART B: ' + _nc.EXPLANATION
+ASSUMPTIONS = list(ASSUMPTIONS) + [a for a in _nc.ASSUMPTIONS if a not in ASSUMPTIONS]
